@@ -1507,7 +1507,7 @@ fn main() {
     let start = Instant::now();
     let quick = cli.tier.is_quick();
     let shards: usize = if quick { 32 } else { 128 };
-    let cases_per_shard = cli.scaled(if quick { 20 } else { 60 });
+    let cases_per_shard = cli.scaled(if quick { 20 } else { 40 });
     let per_output_budget = if quick { 3 } else { 6 };
 
     // replay of a single case: --only <shard>:<case>
